@@ -1804,7 +1804,7 @@ func Exec(c hx.Case) hx.Result {
 		if cmd == "parse" || cmd == "ast" || cmd == "parse0" || cmd == "parsef" || cmd == "astf" || len(G.Terms)+len(G.NonTerms) >= 16 {
 			// (grammars with many symbols: a fixpoint or a hash table of the analyses that does not come back ends the case
 			// here, not at the watchdog of the run)
-			hung = !hx.WithTimeout(8*time.Second, run)
+			hung = !hx.WithTimeout(60*time.Second, run)
 		} else {
 			run()
 		}
